@@ -27,7 +27,7 @@ from .simrunner import DieSignal, S1Host, SimBackend
 from .simstorage import SimStorage
 from .spec import Built, Ref, base_context
 from .spy import SpyBackend
-from .tasklib import Value, ctx_view
+from .tasklib import NONE, Value, ctx_view
 
 
 _DEVNULL = []
@@ -40,7 +40,7 @@ def _devnull():
     return _DEVNULL[0]
 
 
-def make_tick_datetime():
+def make_tick_datetime(coarse: bool = False):
     from datetime import datetime as _dt, timedelta as _td
 
     class TickDatetime(_dt):
@@ -49,7 +49,9 @@ def make_tick_datetime():
         @classmethod
         def now(cls, tz=None):
             cls._ticks[0] += 1
-            return _dt(2030, 1, 1) + _td(milliseconds=137 * cls._ticks[0])
+            # a coarse clock (resolution above the running time of a short task): consecutive readings agree
+            t = (cls._ticks[0] // 4) * 4 if coarse else cls._ticks[0]
+            return _dt(2030, 1, 1) + _td(milliseconds=137 * t)
 
     return TickDatetime
 
@@ -63,6 +65,7 @@ class Rec:
         self.events: list[tuple] = events if events is not None else []
         self.fault_counts: dict[str, int] = fault_counts if fault_counts is not None else {}
         self.main_lines = 0
+        self.main_rpcs = 0
         self.logs: list[logging.LogRecord] = []
         self.in_run = False
         self.sim = None
@@ -153,7 +156,7 @@ class RunProbe:
 
     def read(self, task, dep, value):
         _e, who = self._who()
-        dg = value.digest if isinstance(value, Value) else f'<{type(value).__name__}>'
+        dg = value.digest if isinstance(value, Value) else (NONE.digest if value is None else f'<{type(value).__name__}>')
         self.rec.ev('read', task.ident, dep.ident, dg, who)
         if self.sim is not None:
             self.sim.yp('read')
@@ -176,6 +179,9 @@ class RunProbe:
                     sys.stderr.write(op[1])
                 elif k == 'print':
                     print(op[1])
+                elif k == 'burst':
+                    for j in range(op[1]):
+                        lt_logger.info(f'bst{task.ident}x{j}x')
                 elif k == 'flush_out':
                     sys.stdout.flush()
                 elif k == 'flush_err':
@@ -338,6 +344,7 @@ class InterruptPlan:
         self.i = 0
         self.lines = 0
         self.blocks = 0
+        self.rpcs = 0
         self.wait_steps = 0
         self.starve_after = starve_after
         self.simos = None
@@ -367,6 +374,16 @@ class InterruptPlan:
             if self.lines > s['k']:
                 self._deliver(True)
 
+    def on_main_rpc(self, queue, method):
+        """The calling thread has sent a request to a manager and is about to read the reply."""
+        if not self.rec.in_run:
+            return
+        self.rpcs += 1
+        s = self.cur()
+        if s is not None and s['mode'] == 'rpc' and self.rpcs > s['k']:
+            self.rec.fired('sigint-inside-proxy-call')
+            self._deliver(True)
+
     def on_yield(self, sim, ent, kind, info):
         if ent is sim.main and kind.startswith('block:'):
             self.blocks += 1
@@ -386,6 +403,7 @@ class InterruptPlan:
         self.i += 1
         self.lines = 0
         self.blocks = 0
+        self.rpcs = 0
         self.wait_steps = 0
         n = self.i
         sim = self.sim
@@ -598,6 +616,7 @@ class Outcome:
         self.steps = 0
         self.timeouts = 0
         self.main_lines = 0
+        self.main_rpcs = 0
         self.abort: Optional[str] = None
         self.abort_detail = ''
         self.logs: list = []
@@ -673,6 +692,7 @@ def execute(sc: dict, ch: Choices, storage_dir: Optional[str], storage_obj=None,
         sim = Sim(ch, params=sc.get('swarm') or {})
         simos = SimOS(sim, cpu_count=sc.get('cpu_count', 2), spawn_boot_steps=sc.get('boot_steps', 2),
                       kill_flush=bool(sc.get('terminate_flush', False)))
+        simos.coarse_clock = bool(sc.get('coarse_clock'))
         rec = Rec(sim.events, sim.fault_counts)
         rec.sim = sim
     else:
@@ -727,7 +747,7 @@ def execute(sc: dict, ch: Choices, storage_dir: Optional[str], storage_obj=None,
             from .sim import HarnessError
             raise HarnessError('seam missing: labtech.runners.base.datetime')
         tick_patch = (base_mod, base_mod.datetime)
-        base_mod.datetime = make_tick_datetime()
+        base_mod.datetime = make_tick_datetime(bool(sc.get('coarse_clock')))
     old_probe = probe_mod.ACTIVE
     probe_mod.set_active(probe)
     ip = None
@@ -751,6 +771,13 @@ def execute(sc: dict, ch: Choices, storage_dir: Optional[str], storage_obj=None,
             ip.simos = simos
             sim.hooks.append(ip)
             sim.sched_hooks.append(ip)
+
+        def _on_main_rpc(queue, method):
+            if rec.in_run:
+                rec.main_rpcs += 1
+                if ip is not None:
+                    ip.on_main_rpc(queue, method)
+        simos.on_main_rpc = _on_main_rpc
 
         def handler(code, line):
             if sim.dead:
@@ -940,6 +967,7 @@ def execute(sc: dict, ch: Choices, storage_dir: Optional[str], storage_obj=None,
     out.events = rec.events
     out.fault_counts = dict(rec.fault_counts)
     out.main_lines = rec.main_lines
+    out.main_rpcs = rec.main_rpcs
     out.logs = rec.logs
     out.window_ops = ctl.window_log
     if sim is not None:
